@@ -564,10 +564,12 @@ fn main() {
     let strings = string_corpus();
     let others = other_corpus();
     for d in &scs {
-        for z in &ints {
+        // numeric scalars (and ID) see every boundary number, the others a thinned selection
+        let numeric = d.int.is_some() || matches!(d.name, "f32" | "f64" | "ID");
+        for z in ints.iter().step_by(if numeric { 1 } else { 7 }) {
             out.parse_case(d, Some(vint(*z)));
         }
-        for f in &floats {
+        for f in floats.iter().step_by(if numeric { 1 } else { 5 }) {
             out.parse_case(d, vfloat(*f));
         }
         for s in &strings {
